@@ -2,7 +2,7 @@
 //! pool of names; the interleaving is whatever the seeded single-threaded runtime produces.
 use crate::ops::{exec, stream_open, AckRef, CallSpec, MsgSpec};
 use crate::replay::drain;
-use crate::world::World;
+use crate::world::{write_event, Out, World};
 use rand::rngs::StdRng;
 use rand::{Rng, SeedableRng};
 use serde_json::{json, Value};
@@ -48,12 +48,20 @@ fn profile(name: &str) -> Profile {
     }
 }
 
-pub async fn run(seed: u64, profile_name: &str) -> Vec<Value> {
+pub async fn run(seed: u64, profile_name: &str, out: Option<Out>) -> Vec<Value> {
     let p = profile(profile_name);
     let mut rng = StdRng::seed_from_u64(seed ^ 0x5eed_de17);
     let cap = p.caps[rng.gen_range(0..p.caps.len())];
     let phase = rng.gen_range(0..100u64);
-    let world = World::start(cap, Some(phase)).await;
+    let header = json!({
+        "k": "reset", "i": -1, "t": 0, "run": format!("{}-{}", profile_name, seed), "cap": cap, "seed": seed,
+        "meta": {"profile": profile_name, "phase": phase, "clock": "paused", "proj": proj_map()},
+    });
+    if let Some(out) = &out {
+        write_event(out, header.clone());
+    }
+    let streaming = out.is_some();
+    let world = World::start(cap, Some(phase), out).await;
 
     // Setup by client 0: two topics, two or three subscriptions.
     let acks = [0, 10, 11, 20];
@@ -190,11 +198,11 @@ pub async fn run(seed: u64, profile_name: &str) -> Vec<Value> {
     drain(&world, 99).await;
     world.ev("end", json!({}));
 
-    let mut events = vec![json!({
-        "k": "reset", "i": -1, "t": 0, "run": format!("{}-{}", profile_name, seed), "cap": cap, "seed": seed,
-        "meta": {"profile": profile_name, "phase": phase, "clock": "paused", "proj": proj_map()},
-    })];
-    events.extend(world.take_events());
+    let mut events = Vec::new();
+    if !streaming {
+        events.push(header);
+        events.extend(world.take_events());
+    }
     deltio::verif::install_local(None);
     events
 }
